@@ -202,3 +202,72 @@ contract(
     modifies=K._SS_MOD + ["TaskScenario.currentSlotIdx@self", "TaskScenario.slotStartOffset@self", "TaskScenario.isRunAway@self",
                           "TaskScenario.scheduled@self", "@scheduled@self.property"],
 )
+
+# ---- backward (ALAP) scheduling: the deadline is derived from successors / on-start predecessors / project end -----
+ghost("SuccList", ["ts"], None, opaque=note_type(List(Ref("Task"), region="succlist")), types=[Ref("TaskScenario")],
+      reads=["@depends"])
+
+contract(
+    TS + "::TaskScenario.schedule", variant="alap-derived", props=["C04", "C08", "C11"],
+    params={"self": Ref("TaskScenario")}, ret=Bool,
+    requires=_sched_common_req + [
+        ("backward", "attr(self.property, 'forward', self.scenarioIdx) is not None and not some(attr(self.property, 'forward', self.scenarioIdx))"),
+        ("no-own-end", "TEnd(self.property, self.scenarioIdx) is None and TStart(self.property, self.scenarioIdx) is None"),
+        ("effort-task", "IsEffortTask(self) and attr(self.property, 'allocate', self.scenarioIdx) is not None and "
+                        "len(some(attr(self.property, 'allocate', self.scenarioIdx))) > 0"),
+        ("succ-placed", "forall(k, 0, len(SuccList(self)), SuccList(self)[k] != self.property and "
+                        "implies(TStart(SuccList(self)[k], self.scenarioIdx) is not None, "
+                        "some(TStart(SuccList(self)[k], self.scenarioIdx)) >= PStart(self.project)))"),
+        ("no-onstart-deps", "forall(d, 'Ref:Dep', implies(d.is_dict, not d.onstart))"),
+    ],
+    assumes=K.anc_axioms_all("Resource") + L.anc_axioms("self.property") + PT_LEMMAS,
+    hide={"PT": (DT, [Ref("Project"), Int]), "PIdx": (Int, [Ref("Project"), DT])},
+    ensures=[
+        ("total", "iff(result, Sched(self.property, self.scenarioIdx)) and implies(not result, self.isRunAway)"),
+        # C04/C08 (backward): the task ends no later than its deadline: the project end and the start of every
+        # task that depends on it
+        ("before-project-end", "implies(result, TEnd(self.property, self.scenarioIdx) is not None and "
+                               "some(TEnd(self.property, self.scenarioIdx)) <= some(self.project.attributes['end']))"),
+        ("before-successors", "implies(result, forall(k, 0, len(SuccList(self)), "
+                              "implies(TStart(SuccList(self)[k], self.scenarioIdx) is not None, "
+                              "some(TEnd(self.property, self.scenarioIdx)) <= some(TStart(SuccList(self)[k], self.scenarioIdx)))))"),
+    ],
+    calls={
+        "self.getAllDependencies": ("contract", TS + "::TaskScenario.getAllDependencies"),
+        "self._parse_duration": ("spec", ["self", "s"], "uf_dur(s)"),
+        "self._getSuccessors": ("spec", ["self"], "SuccList(self)"),
+        "self._isResourceAvailable": ("pure", Bool),
+        "self.project.dateToIdx": ("spec", ["self", "d"], "PIdx(self, d)"),
+        "self.project.idxToDate": ("spec", ["self", "i"], "ite(self.attributes['start'] is None, None, PT(self, i))"),
+        "self.isWorkingTime": ("contract", TS + "::TaskScenario.isWorkingTime"),
+        "self.scheduleSlot": ("contract", TS + "::TaskScenario.scheduleSlot"),
+    },
+    static={"hasattr(dep, 'task')": False},
+    loops={
+        2: {"inv": [("bound", "latest_end <= some(self.project.attributes['end']) and latest_end >= PStart(self.project)")],
+            "locals": {"latest_end": DT, "onstart": Bool, "pred": Opt(Ref("Task")), "gapduration": Opt(Str),
+                       "pred_start": Opt(DT), "gap_hours": Real}},
+        3: {"inv": [("bound", "latest_end <= some(self.project.attributes['end']) and latest_end >= PStart(self.project)"),
+                    ("dominated", "forall(k, 0, _i, implies(TStart(_iter[k], self.scenarioIdx) is not None, "
+                                  "latest_end <= some(TStart(_iter[k], self.scenarioIdx))))")],
+            "locals": {"latest_end": DT, "succ_start": Opt(DT)}},
+        4: {"inv": [("cursor", "self.currentSlotIdx is not None and some(self.currentSlotIdx) >= lowerLimit - 1 and "
+                               "some(self.currentSlotIdx) <= PIdx(self.project, end_date) - 1 and lowerLimit == 0")],
+            "decreases": "some(self.currentSlotIdx)"},
+        5: {"inv": [("cursor", "self.currentSlotIdx is not None and some(self.currentSlotIdx) >= lowerLimit - 1 and "
+                               "some(self.currentSlotIdx) <= PIdx(self.project, end_date) - 1 and lowerLimit == 0")]},
+        9: {"inv": [
+            ("cursor", "TaskOk(self)"),
+            ("world", "World(self)"),
+            K._ss_sel_distinct,
+            ("unfinished", "self.doneEffort >= 0 and self.doneEffort < EffortOf(self)"),
+            ("not-after-deadline", "some(self.currentSlotIdx) <= start_slot_idx and start_slot_idx <= PIdx(self.project, end_date) - 1 "
+                                   "and implies(first_booked_slot is not None, some(first_booked_slot) <= start_slot_idx)"),
+            ("end-untouched", "TEnd(self.property, self.scenarioIdx) is None"),
+        ], "decreases": "some(self.currentSlotIdx)",
+            "locals": {"first_booked_slot": Opt(Int), "previous_effort": Real}},
+    },
+    locals={"latest_end": DT, "end_date": Opt(DT)},
+    modifies=K._SS_MOD + ["TaskScenario.currentSlotIdx@self", "TaskScenario.slotStartOffset@self", "TaskScenario.isRunAway@self",
+                          "TaskScenario.scheduled@self", "@scheduled@self.property"],
+)
